@@ -125,6 +125,7 @@ func RunRetentionCase(seed int64, workDir string) *HistResult {
 	}
 	ageSlots := r.Perm(60)
 	slot := 0
+	var lastCreated time.Time
 	for _, p := range pipeNames {
 		n := r.Intn(9)
 		if p == "gone" {
@@ -135,6 +136,13 @@ func RunRetentionCase(seed int64, workDir string) *HistResult {
 			k := ageSlots[slot%len(ageSlots)]
 			slot++
 			created := now.Add(-time.Duration(k)*30*time.Minute - 7*time.Minute)
+			if i > 0 && r.Intn(4) == 0 {
+				// created in the very same instant as the previous job of this pipeline (a store written with a coarse clock,
+				// two requests in one tick), written with another zone offset: the count rule still counts every job
+				created = lastCreated.In(time.FixedZone("", []int{3600, -5 * 3600, 19800}[r.Intn(3)]))
+				res.sit("C12", "two jobs of a pipeline created in the same instant")
+			}
+			lastCreated = created
 			pj := store.PersistedJob{ID: id, Pipeline: p, Created: created}
 			kind := r.Intn(4) // 0 finished, 1 canceled unstarted, 2 formerly running, 3 formerly waiting
 			st := created.Add(time.Second)
@@ -312,15 +320,16 @@ func RunRetentionCase(seed int64, workDir string) *HistResult {
 			}
 			// a finished job is kept only if every newer finished job is kept
 			sawRemoved := ""
+			var sawRemovedCreated time.Time
 			for _, j := range jobs { // newest first
 				if !(j.Completed || j.Canceled) {
 					continue
 				}
 				if !kept[j.ID] {
 					if sawRemoved == "" {
-						sawRemoved = j.ID
+						sawRemoved, sawRemovedCreated = j.ID, j.Created
 					}
-				} else if sawRemoved != "" {
+				} else if sawRemoved != "" && j.Created.Before(sawRemovedCreated) { // (jobs created in the same instant: either may go first)
 					find("C12:newer-finished-job-removed-while-older-kept", "pipeline %s (retention_count %d, period %s): finished job %s is kept although the newer finished job %s was removed", p, rc, rp, j.ID, sawRemoved)
 					break
 				}
